@@ -459,6 +459,31 @@ SEED_EXPECT.update({
     'R2-C18b': ['C06', 'C10', 'C11', 'C18', 'C19'], 'R2-C19a': ['C19'], 'R2-C19b': ['C19'], 'R2-C20a': ['C05', 'C13', 'C20'],
     'R2-C20b': ['C13', 'C20'],
 })
+# round 3 (18 seeds: no caches, no matcher heuristics; 17 caught)
+SEED_EXPECT.update({
+    'R3-C01a': ['C01', 'C19'], 'R3-C03a': ['C13', 'C20'], 'R3-C04a': ['C01', 'C18'], 'R3-C05a': ['C05'],
+    'R3-C05xa': ['C04', 'C05', 'C16'], 'R3-C06a': ['C10'], 'R3-C08a': ['C08', 'C09'], 'R3-C09a': ['C09'],
+    'R3-C10a': ['C06', 'C10', 'C11', 'C19'], 'R3-C13a': ['C13', 'C20'], 'R3-C14a': ['C13', 'C14'], 'R3-C15a': ['C15'],
+    'R3-C16a': ['C04', 'C05', 'C16'], 'R3-C17a': ['C17', 'C19'], 'R3-C18a': ['C01', 'C18'], 'R3-C19a': ['C19'],
+    'R3-C20a': ['C05', 'C13', 'C20'],
+})
+
+
+def apply_benign(bid):
+    def edit(root):
+        path = os.path.join(VERIF, 'benign', bid, 'patch.diff')
+        pr = subprocess.run(['patch', '-p1', '-s', '-d', root, '-i', path], capture_output=True, text=True)
+        if pr.returncode != 0:
+            raise Skip(f"benign patch {bid} does not apply on this tree")
+        return [l[6:].split('\t')[0] for l in open(path).read().splitlines() if l.startswith('+++ b/')]
+    return edit
+
+
+# behaviour-preserving maintenance patches written by independent sub-agents (DESIGN.md 11.10): every check must stay silent
+for _bid in sorted(os.listdir(os.path.join(VERIF, 'benign'))) if os.path.isdir(os.path.join(VERIF, 'benign')) else []:
+    if os.path.isfile(os.path.join(VERIF, 'benign', _bid, 'patch.diff')):
+        CONTROLS.append(C(f"silent-benign-{_bid}", 'silent', ALL_PROPS, apply_benign(_bid), None, 'independent behaviour-preserving maintenance patch'))
+
 for _sid, _props in SEED_EXPECT.items():
     CONTROLS.append(C(f"fire-seed-{_sid}", 'fire', _props, apply_seed(_sid), None, 'confirmed seeded change'))
 
